@@ -193,9 +193,9 @@ def judge(case, acc, ctx):
             with open(art + "VERSION", "w") as fh:
                 fh.write(VERSION_FILES[ver][0])
             data.update(B.read_version_file(art + "VERSION"))
-        elif ver == "override":
+        elif ver in ("override", "override-big", "override-max"):
             pre = "APP_ROOT" if template == "root" else "NORDIC_TOP"
-            data.update({f"{pre}_SEQ_NUM": "77", f"{pre}_VERSION": "1.2.3-beta.4"})
+            data.update({f"{pre}_SEQ_NUM": {"override": "77", "override-big": "1718900000000", "override-max": str(2**64 - 1)}[ver], f"{pre}_VERSION": "1.2.3-beta.4"})
         tpl = "root_with_nordic_top_envelope.yaml.jinja2" if template == "root" else "nordic_top_envelope.yaml.jinja2"
         if case.get("cwd_artifacts"):
             # library use from inside the artifacts directory: no artifacts_folder is passed, the children are found relative to the
@@ -229,7 +229,8 @@ def judge(case, acc, ctx):
         problems.append(f"the envelope's own component id does not carry the class id of {own_names}")
     if facts["fetched"] < 2 * len(subset):
         problems.append(f"only {facts['fetched']} '#name' fetches for {len(subset)} images (install + candidate-verification expected)")
-    exp = {"none": (1, None), "override": (77, [1, 2, 3, -2, 4]), **{k: v[1] for k, v in VERSION_FILES.items()}}[ver]
+    exp = {"none": (1, None), "override": (77, [1, 2, 3, -2, 4]), "override-big": (1718900000000, [1, 2, 3, -2, 4]), "override-max": (2**64 - 1, [1, 2, 3, -2, 4]),
+           **{k: v[1] for k, v in VERSION_FILES.items()}}[ver]
     if (facts["seq"], facts["version"]) != exp:
         problems.append(f"sequence number / version {facts['seq']}, {facts['version']} != configured {exp}")
     if problems:
@@ -245,13 +246,16 @@ VERSION_FILES = {
     "file-prerelease": ("VERSION_MAJOR = 1\nVERSION_MINOR = 2\nPATCHLEVEL = 3\nEXTRAVERSION = rc1\n", ((1 << 24) + (2 << 16) + (3 << 8), [1, 2, 3, -1, 1])),
     "file-unsupported-extra": ("VERSION_MAJOR = 1\nVERSION_MINOR = 2\nPATCHLEVEL = 3\nVERSION_TWEAK = 0\nEXTRAVERSION = dev\n", ((1 << 24) + (2 << 16) + (3 << 8), [1, 2, 3, -3])),
 }
-EXTRA_CONFIGURATIONS = 18
+EXTRA_CONFIGURATIONS = 22
 
 
 def configurations():
     for ver in [v for v in VERSION_FILES if v != "file"]:
         yield {"template": "root", "subset": ["application"], "custom": False, "ver": ver}
         yield {"template": "root", "subset": ["radio", "application", "top"], "custom": True, "ver": ver}
+        yield {"template": "top", "subset": ["secdom", "sysctrl"], "custom": False, "ver": ver}
+    for ver in ("override-big", "override-max"):
+        yield {"template": "root", "subset": ["application"], "custom": False, "ver": ver}
         yield {"template": "top", "subset": ["secdom", "sysctrl"], "custom": False, "ver": ver}
     yield {"template": "root", "subset": ["radio", "application", "top"], "custom": True, "ver": "none", "cwd_artifacts": True}
     yield {"template": "root", "subset": ["application"], "custom": False, "ver": "file", "cwd_artifacts": True}
@@ -317,4 +321,4 @@ def finalize(ctx, m, ev):
     ev["coverage"]["exhaustive"] = m["info"].get("configurations") == 87 + EXTRA_CONFIGURATIONS
     ev["coverage"]["exhaustive_scope"] = "configuration product (7 subsets x 4 name sets x 3 + top x 3 = 87, plus 15 VERSION-file cells and 3 runs from inside the artifacts directory) enumerated completely; child envelopes sampled"
     if m["info"].get("configurations") != 87 + EXTRA_CONFIGURATIONS:
-        raise boot.HarnessError(f"{m['info'].get('configurations')} of 105 configurations covered")
+        raise boot.HarnessError(f"{m['info'].get('configurations')} of 109 configurations covered")
